@@ -2,12 +2,18 @@
     [deser tg ev] is the model of [serde_json::from_str::<Any..Event>] for the target enum [tg]
     on the JSON object [ev], over the dispatch tables generated from ruma's [event_enum!]
     input on every run ([Gen.event_tables]; [all_tables] adds the all-features configuration).
-    The content clause of C18 (serialize typed content -> deserialize is a fixpoint) is NOT
-    decided here: see props/C18.json. *)
+    The content clause of C18 (serialize typed content -> deserialize is a fixpoint, no duplicate
+    keys, unknown members ignored, specification-shaped contents accepted) is decided, for the content
+    structs whose (de)serialization is plain serde-derive, by the [C18_content_*] theorems at the end:
+    they are about the generic derive interpreters of [C18.Serde] run on the schemas the translator
+    regenerates from ruma's source ([Gen.SerdeSchemas.content_schemas]); the structs outside that
+    subset are listed, with the reason, in [Gen.SerdeSchemas.custom_contents]. *)
 From Base Require Import Prelude Sx Json EnumDecl.
 From Gen Require Import StringEnums.
 From C19 Require Model Spec.
 From C18 Require Import Model Spec Bridge Proofs.
+From Gen Require SerdeSchemas.
+From C18 Require Serde SerdeSpec SerdeProofs SerdeSpecProofs SpecSchemas SerdeBridge SerdeTables.
 
 (** The per-table obligation: in every generated dispatch table no arm can capture a type
     meant for another arm — types and aliases pairwise distinct, no exact type below a `.*`
@@ -103,3 +109,76 @@ Theorem C18_raw_json_identity :
 Proof. exact raw_json_id. Qed.
 Eval compute in "PA:C18_raw_json_identity"%string.
 Print Assumptions C18_raw_json_identity.
+
+(** * The content clause, through the derive model *)
+
+(** The per-struct obligations, evaluated on the schemas regenerated from ruma's source: member names
+    and aliases of a struct pairwise distinct; every member that can be left out on output
+    ([skip_serializing_if]) is re-created on input by the missing-member rule with the very value that
+    was skipped; no [Option<Option<_>>] / [Option<Value>]; enum aliases map to canonical spellings. *)
+Theorem C18_content_schemas_wf : SerdeBridge.all_wf SerdeSchemas.content_schemas = true.
+Proof. exact SerdeTables.content_schemas_wf. Qed.
+Eval compute in "PA:C18_content_schemas_wf"%string.
+Print Assumptions C18_content_schemas_wf.
+
+(** Every derive schema accepts every value of the specification's schema for its event type (hand
+    transcription in [C18.SpecSchemas]): required members are enough, optional ones may be absent,
+    types as specified, unknown members anywhere. *)
+Theorem C18_content_schemas_meet_spec :
+  SerdeBridge.all_compat SpecSchemas.spec_contents SerdeSchemas.content_schemas = true.
+Proof. exact SerdeTables.spec_compat. Qed.
+Eval compute in "PA:C18_content_schemas_meet_spec"%string.
+Print Assumptions C18_content_schemas_meet_spec.
+
+(** Serialize a typed content, deserialize the result: the same typed value, and the text has no
+    duplicate keys at any depth - for every content struct of the table, every identifier validator and
+    every value the Rust types can hold. *)
+Theorem C18_content_roundtrip :
+  forall valid k n t v,
+  In (k, n, t) SerdeSchemas.content_schemas -> SerdeProofs.ok valid t v ->
+  exists j, Serde.ser t v = Some j /\ Serde.deser valid t j = Some v /\ Serde.nodup_deep j = true.
+Proof. exact SerdeTables.content_roundtrip. Qed.
+Eval compute in "PA:C18_content_roundtrip"%string.
+Print Assumptions C18_content_roundtrip.
+
+(** The fixpoint clause: whatever JSON was accepted, printing the typed value and reading it again
+    gives the same typed value (no present value changed, none invented), without duplicate keys. *)
+Theorem C18_content_fixpoint :
+  forall valid k n t j v,
+  In (k, n, t) SerdeSchemas.content_schemas -> Serde.nodup_deep j = true -> Serde.deser valid t j = Some v ->
+  exists j', Serde.ser t v = Some j' /\ Serde.deser valid t j' = Some v /\ Serde.nodup_deep j' = true.
+Proof. exact SerdeTables.content_fixpoint. Qed.
+Eval compute in "PA:C18_content_fixpoint"%string.
+Print Assumptions C18_content_fixpoint.
+
+(** A struct reads its object through [lookup] on its own member names only: the order of the
+    members is irrelevant and ... *)
+Theorem C18_content_reads_own_members_only :
+  forall valid fs m m',
+  (forall k, In k (flat_map SerdeProofs.field_names fs) -> lookup k m = lookup k m') ->
+  Serde.deser valid (Serde.TStruct fs) (JObj m) = Serde.deser valid (Serde.TStruct fs) (JObj m').
+Proof. exact SerdeProofs.struct_reads_own_names. Qed.
+Eval compute in "PA:C18_content_reads_own_members_only"%string.
+Print Assumptions C18_content_reads_own_members_only.
+
+(** ... an unknown member never changes the outcome (in particular never causes a failure). *)
+Theorem C18_content_unknown_member_ignored :
+  forall valid fs m k x,
+  ~ In k (flat_map SerdeProofs.field_names fs) ->
+  Serde.deser valid (Serde.TStruct fs) (JObj (insert k x m)) = Serde.deser valid (Serde.TStruct fs) (JObj m).
+Proof. exact SerdeProofs.unknown_member_ignored. Qed.
+Eval compute in "PA:C18_content_unknown_member_ignored"%string.
+Print Assumptions C18_content_unknown_member_ignored.
+
+(** Deserialization succeeds for every content shaped as the specification describes (identifiers
+    judged by C10's validator models), whatever else the object carries - except member names that only
+    ruma knows (aliases, unstable members: [extra_free]). *)
+Theorem C18_spec_shaped_content_accepted :
+  forall k n s,
+  In (k, n, s) SpecSchemas.spec_contents ->
+  exists t, In (k, n, t) SerdeSchemas.content_schemas /\
+    forall j, SerdeSpec.conforms SerdeBridge.id_valid s j = true -> SerdeSpec.extra_free s t j = true ->
+              exists v, Serde.deser SerdeBridge.id_valid t j = Some v.
+Proof. exact SerdeTables.spec_shaped_accepted. Qed.
+Eval compute in "PA:C18_spec_shaped_content_accepted"%string.
+Print Assumptions C18_spec_shaped_content_accepted.
